@@ -302,13 +302,15 @@ func c12Scenarios(thorough bool) []*explore.Scenario {
 	if thorough {
 		n = 6
 	}
-	return []*explore.Scenario{c12Scenario(c12Clients(n))}
+	// certificate-compression algorithms: the unadvertised-algorithm and extension-removed-after-build
+	// rows of C21's scenario (a CompressedCertificate the on-wire hello did not invite)
+	return []*explore.Scenario{c12Scenario(c12Clients(n)), c21Lengths()}
 }
 
 func init() {
 	register(&Prop{ID: "C12", Level: "exploration", Variant: "A", Scenarios: c12Scenarios,
 		Run: func(c *explore.Check, thorough bool) {
-			c.Rule = "every discovered ID, randomized seeds, custom specs incl. single-suite specs x unoffered-choice kind {TLS 1.3 suite (forced through the suite hook, self-consistent), TLS 1.2 suite (forced, self-consistent), GREASE / TLS 1.3 suite id in a TLS 1.2 ServerHello, ServerHello key_share group without a sent share, ALPN not offered (1.3 EncryptedExtensions / 1.2 ServerHello), compression method 1, selected PSK identity without a PSK offer, legacy session id altered / emptied} x every value of the kind's complement menu: Handshake must fail, HandshakeComplete must stay false, no application data, and ConnectionState must not report the value. Certificate-compression algorithms are covered by C21. distinct = (client, kind, value)"
+			c.Rule = "every discovered ID, randomized seeds, custom specs incl. single-suite specs x unoffered-choice kind {TLS 1.3 suite (forced through the suite hook, self-consistent), TLS 1.2 suite (forced, self-consistent), GREASE / TLS 1.3 suite id in a TLS 1.2 ServerHello, ServerHello key_share group without a sent share, ALPN not offered (1.3 EncryptedExtensions / 1.2 ServerHello), compression method 1, selected PSK identity without a PSK offer, legacy session id altered / emptied} x every value of the kind's complement menu: Handshake must fail, HandshakeComplete must stay false, no application data, and ConnectionState must not report the value. Certificate-compression: a CompressedCertificate in an algorithm the hello did not list, or after the extension was removed and the hello rebuilt, must be refused (scenario shared with C21). distinct = (client, kind, value)"
 			c.Assumptions = []string{"forced suites/ALPN keep the hooked server self-consistent (a client lacking the check would complete); ServerHello byte edits (group, compression, session id, PSK) make the server's own transcript diverge, so those rows rely on the client rejecting before Finished"}
 			runAll(c, c12Scenarios(thorough), 0)
 			for _, k := range c12Kinds() {
